@@ -1319,4 +1319,118 @@ theorem TInv.init {s : QSys} (h : s.Init) (harr : ∀ c ∈ s.clients, c.started
   rw [(h.clients c hm).2 hs] at hpc
   exact absurd hpc (QOp.begin_ne_popExec _ _ _ _)
 
+/-! ## the id counter -/
+
+/-- ids are handed out consecutively: the `k`-th accepted enqueue since a state with counter `f0` got id `f0 + k` -/
+def FInv (f0 : Nat) (g : GSys) : Prop :=
+  g.sys.fresh = f0 + g.enqs.length ∧ g.enqs.map (·.id) = List.range' f0 g.enqs.length
+
+theorem FInv.gstep {f0 : Nat} {g g' : GSys} (h : FInv f0 g) (hs : GStep g g') : FInv f0 g' := by
+  cases hs with
+  | same => exact h
+  | setc => exact h
+  | other => exact h
+  | range => exact h
+  | exec => exact h
+  | enq i c c' p after before hc hcop hcpc hop hpc hst harr hpop =>
+    obtain ⟨h1, h2⟩ := h
+    refine ⟨?_, ?_⟩
+    · show g.sys.fresh + 1 = f0 + (g.enqs ++ [_]).length
+      rw [List.length_append, h1]; simp; omega
+    · show (g.enqs ++ [_]).map GEnq.id = List.range' f0 (g.enqs ++ [_]).length
+      rw [List.map_append, h2, List.length_append, List.length_singleton, List.range'_concat]
+      simp [h1]
+
+theorem GFInv.run {f0 : Nat} {g : GSys} (hG : GInv g) (hF : FInv f0 g) (es : List QSysEv) : FInv f0 (g.run es) :=
+  (GSys.run_induction (fun g => GInv g ∧ FInv f0 g) (fun _ => True) (fun _ h => h.1.okFor)
+    (fun _ _ h hs => ⟨h.1.gstep hs, h.2.gstep hs⟩) (fun _ d h _ => ⟨h.1.tick d, h.2⟩) g es
+    (fun e _ => by cases e <;> trivial) ⟨hG, hF⟩).2
+
+/-! ## `Consistent` along every run of the model itself (no ghost state, any initial clients) -/
+
+theorem QSys.stepClient_consistent {s : QSys} (h : Consistent s.store) (i : Nat) (b : Bool) :
+    Consistent (s.stepClient i b).1.store := by
+  cases hc : s.cur i with
+  | none => rw [QSys.stepClient_none b hc]; exact h
+  | some c =>
+    by_cases hl : c.pc.live = true
+    · rw [QSys.stepClient_live b hc hl]; exact qstep_consistent h _ _ _ _
+    · rw [QSys.stepClient_stall b hc (by simpa using hl)]; exact h
+
+theorem QSys.runClient_consistent {s : QSys} (h : Consistent s.store) (i : Nat) (tr : List String) (fuel : Nat) :
+    Consistent (s.runClient i tr fuel).1.store := by
+  induction fuel generalizing s tr with
+  | zero => exact h
+  | succ n ih =>
+    unfold QSys.runClient
+    have hs : s.stepClient i false = ((s.stepClient i false).1, (s.stepClient i false).2) := rfl
+    rw [hs]
+    cases (s.stepClient i false).2 with
+    | none => exact QSys.stepClient_consistent h i false
+    | some l => exact ih (QSys.stepClient_consistent h i false) _
+
+theorem QSys.stepT_consistent {s : QSys} (h : Consistent s.store) (tr : List String) (e : QSysEv) :
+    Consistent (s.stepT tr e).1.store := by
+  cases e with
+  | tick d => exact h
+  | step i =>
+    simp only [QSys.stepT]
+    have := QSys.stepClient_consistent h i false
+    generalize s.stepClient i false = r at this
+    obtain ⟨s', l⟩ := r
+    cases l <;> exact this
+  | run i => exact QSys.runClient_consistent h i tr 200
+  | crashBefore i =>
+    simp only [QSys.stepT]
+    split
+    · split <;> exact h
+    · exact h
+  | crashAfter i =>
+    simp only [QSys.stepT]
+    split
+    · split
+      · have := QSys.stepClient_consistent h i true
+        generalize s.stepClient i true = r at this
+        obtain ⟨s', l⟩ := r
+        cases l <;> exact this
+      · exact h
+    · exact h
+
+theorem QSys.fold_consistent {s : QSys} (h : Consistent s.store) (tr : List String) (es : List QSysEv) :
+    Consistent (es.foldl (fun (acc : QSys × List String) e => acc.1.stepT acc.2 e) (s, tr)).1.store := by
+  induction es generalizing s tr with
+  | nil => exact h
+  | cons e es ih => exact ih (QSys.stepT_consistent h tr e) _
+
+theorem QSys.run_consistent {s : QSys} (h : Consistent s.store) (es : List QSysEv) : Consistent (s.run es).store :=
+  QSys.fold_consistent h [] es
+
+theorem QSys.finish_consistent {s : QSys} (h : Consistent s.store) (tr : List String) (fuel : Nat) :
+    Consistent (s.finish tr fuel).1.store := by
+  induction fuel generalizing s tr with
+  | zero => exact h
+  | succ n ih =>
+    unfold QSys.finish
+    simp only
+    split
+    · have := QSys.fold_consistent (s := { s with clients := s.clients.map fun (c : QClient) => if c.dead then c else c.start s.clock }) h tr
+        ((List.range (s.clients.map fun (c : QClient) => if c.dead then c else c.start s.clock).length).map QSysEv.step)
+      rw [List.foldl_map] at this
+      exact ih this _
+    · exact h
+
+/-! ## a list whose image under `f` has no duplicates -/
+
+theorem eq_of_nodup_map {α β : Type} {f : α → β} {l : List α} (h : (l.map f).Nodup) {a b : α}
+    (ha : a ∈ l) (hb : b ∈ l) (hab : f a = f b) : a = b := by
+  induction l with
+  | nil => cases ha
+  | cons x xs ih =>
+    rw [List.map_cons, List.nodup_cons] at h
+    rcases List.mem_cons.1 ha with rfl | ha' <;> rcases List.mem_cons.1 hb with rfl | hb'
+    · rfl
+    · exact absurd (List.mem_map.2 ⟨b, hb', hab.symm⟩) h.1
+    · exact absurd (List.mem_map.2 ⟨a, ha', hab⟩) h.1
+    · exact ih h.2 ha' hb'
+
 end Swat4
